@@ -540,6 +540,82 @@ theorem adc_decode_injective (b c : List UInt8) (p : Packet) (hb : decode b = .o
     (hc : decode c = .ok p) : clearFooterBits b = clearFooterBits c := by
   rw [← adc_roundtrip b p hb, ← adc_roundtrip c p hc]
 
+/-
+NOT PROVED at full strength (DESIGN.md lists it, the task marks it optional): the converse
+
+  theorem adc_encode_decode (p : Packet) (h : WfPacket p) : decode (encode p) = .ok p
+
+(`WfPacket`: every field in its wire range, short form ⇔ no board id, long form with a board of
+the table, ≥ 64 in-range samples, baseline = floor mean, the flag ladder and the count rule).
+Proved below: `adc_encode_decode_partial`, the statement for packets of the 16-byte form
+(`WfShortPacket`). Missing for the full statement: the long form, i.e. reading every field back
+out of `encode p` through the variable-length sample block (append re-associations, a case
+split over the MAC table, `i16s (encodeSamples w) = w`). Also proved in this direction:
+`adc_decode_injective` (decoding loses only the two unused bits). The harness covers the long
+form by sampling: every packet of the `valid-*` builders is `encode f` of a well-formed field
+tuple and must be accepted with accessors that re-encode to the same bytes.
+-/
+
+/-- Shape of a packet that is encoded in the 16-byte form. -/
+structure WfShortPacket (p : Packet) : Prop where
+  trig : p.acceptedTrigger < 65536
+  module : p.moduleId ≤ 7
+  chan : (∃ n, p.channelId = .a16 n ∧ n ≤ 15) ∨ (∃ n, p.channelId = .a32 n ∧ n ≤ 31)
+  req : p.requestedSamples < 65536
+  ts : p.eventTimestamp < 4294967296
+  board : p.boardId = none
+  trigOff : p.triggerOffset = none
+  build : p.buildTimestamp = none
+  wave : p.waveform = []
+  baseline : -32768 ≤ p.suppressionBaseline ∧ p.suppressionBaseline ≤ 32767
+  keepLast : p.keepLast = 0
+  keepBit : p.keepBit = false
+  supp : p.suppressionEnabled = true
+
+/-- C02 (converse round trip, short form only — see the comment above). -/
+theorem adc_encode_decode_partial (p : Packet) (h : WfShortPacket p) : decode (encode p) = .ok p := by
+  obtain ⟨h1, h2, h3, h4, h5, h6, h7, h8, h9, h10, h11, h12, h13⟩ := h
+  rw [decode_ok_iff]
+  cases p with
+  | mk trig module chan req ts board trigOff build wave baseline keepLast keepBit supp =>
+  simp only at h1 h2 h3 h4 h5 h6 h7 h8 h9 h10 h11 h12 h13
+  subst h6 h7 h8 h9 h11 h12 h13
+  have ho := ofSigned16_lt baseline
+  have hso := toSigned_ofSigned16 baseline h10
+  have hb : encode { acceptedTrigger := trig, moduleId := module, channelId := chan, requestedSamples := req, eventTimestamp := ts, boardId := none, triggerOffset := none, buildTimestamp := none, waveform := [], suppressionBaseline := baseline, keepLast := 0, keepBit := false, suppressionEnabled := true }
+      = [1, 3, UInt8.ofNat (trig / 256 % 256), UInt8.ofNat (trig % 256), UInt8.ofNat module, UInt8.ofNat (channelByte chan), UInt8.ofNat (req / 256 % 256), UInt8.ofNat (req % 256), UInt8.ofNat (ts % 4294967296 / 256 / 256 / 256 % 256), UInt8.ofNat (ts % 4294967296 / 256 / 256 % 256), UInt8.ofNat (ts % 4294967296 / 256 % 256), UInt8.ofNat (ts % 4294967296 % 256), 32, 0, UInt8.ofNat (ofSigned 16 baseline / 256 % 256), UInt8.ofNat (ofSigned 16 baseline % 256)] := by
+    simp [encode, encodeFooter, footerWord, beBytes, leBytes]
+  rw [hb]
+  generalize ofSigned 16 baseline = o at *
+  have hc : channelByte chan ≤ 15 ∨ (128 ≤ channelByte chan ∧ channelByte chan ≤ 159) := by
+    rcases h3 with ⟨n, rfl, hn⟩ | ⟨n, rfl, hn⟩ <;> simp only [channelByte] <;> omega
+  refine ⟨⟨by simp, by simp [byteAt], by simp [byteAt], ?_, ?_, .inl ⟨by simp, ?_, ?_, ?_⟩⟩, ?_⟩
+  · simp [byteAt]; omega
+  · simp [byteAt]; omega
+  · simp [suppF, footerF, beAt, byteAt]
+  · simp [keepBitF, footerF, beAt, byteAt]
+  · simp [keepLastF, footerF, beAt, byteAt]
+  · simp [fields, baselineF, keepLastF, keepBitF, suppF, footerF, beAt, byteAt]
+    have eo : o / 256 % 256 * 256 + o % 256 = o := by omega
+    rw [eo, hso]
+    refine ⟨by omega, by omega, ?_, by omega, by omega, rfl⟩
+    rcases h3 with ⟨n, rfl, hn⟩ | ⟨n, rfl, hn⟩
+    · simp only [channelByte, Nat.mod_eq_of_lt (by omega : n < 256), if_pos hn]
+    · have e : (128 + n) % 256 = 128 + n := Nat.mod_eq_of_lt (by omega)
+      have hne : ¬ 128 + n ≤ 15 := by omega
+      have e2 : 128 + n - 128 = n := by omega
+      simp only [channelByte, e, hne, if_false, e2]
+
+
+/-- Non-vacuity of `adc_encode_decode_partial`. -/
+example : WfShortPacket
+    { acceptedTrigger := 4, moduleId := 5, channelId := .a16 6, requestedSamples := 699,
+      eventTimestamp := 7, boardId := none, triggerOffset := none, buildTimestamp := none,
+      waveform := [], suppressionBaseline := -3, keepLast := 0, keepBit := false,
+      suppressionEnabled := true } :=
+  ⟨by decide, by decide, .inl ⟨6, rfl, by decide⟩, by decide, by decide, rfl, rfl, rfl, rfl,
+    by decide, rfl, rfl, rfl⟩
+
 /-! ### Non-vacuity -/
 
 /-- The 16-byte packet of the crate's documentation examples (footer `0xE000`: suppression on,
